@@ -133,12 +133,14 @@ def nextLogContainer (s : State) : State :=
       { s with data := replaceAt s.data i { c with size := k, data := c.data.take k ++ zeros (k - c.data.length) } }
     else s
 
-def dropOldData (s : State) : State :=
-  match s.data with
-  | [] => s
-  | c :: r =>
-    let position : Int := (c.size : Int) + c.pos
-    if position > s.tellg || position > s.tellp || position > s.fileSize then s else { s with data := r }
+/-- a container may be dropped when it lies completely behind the get position, the put position and the
+    declared end -/
+def droppable (s : State) (c : Cont) : Bool :=
+  let position : Int := (c.size : Int) + c.pos
+  !(decide (position > s.tellg) || decide (position > s.tellp) || decide (position > s.fileSize))
+
+/-- `dropOldData`: every leading container that is completely consumed is released (a loop since fix 0843d7b) -/
+def dropOldData (s : State) : State := { s with data := s.data.dropWhile (droppable s) }
 
 def setFileSize (s : State) (n : Int) : State := { s with fileSize := n }
 def setBufferSize (s : State) (n : Int) : State := { s with bufferSize := n }
